@@ -53,7 +53,10 @@ TCODE = {(0, 0): 1, (0, 1): 2, (1, 0): 3, (1, 1): 4, (2, 0): 5, (2, 1): 6}
 
 def cases(tier, seed):
     n = 400 if tier == "quick" else 8000
-    return [{"n": i} for i in range(n)]
+    out = [{"n": i} for i in range(n)]
+    if tier == "thorough":
+        out.insert(0, {"kind": "suite", "n": -1})
+    return out
 
 
 _mon = None
@@ -177,6 +180,10 @@ def run(case, ctx):
     import jax.numpy as jnp
     import ginjax.geometric as geom
 
+    if case.get("kind") == "suite":
+        from .. import suite
+
+        return suite.run_suite("arith", files=["tests/test_multi_image.py", "tests/test_models.py", "tests/test_ml.py"])
     rng = rng_for(ctx["seed"], ID, case["i"])
     D = int(rng.choice([1, 2, 2, 3]))
     n_lead = int(rng.integers(0, 3))
